@@ -33,9 +33,16 @@ class Runner:
         self.keys_dir = os.path.join(os.path.dirname(os.path.dirname(os.path.abspath(__file__))), "harness", "keys")
         os.makedirs(workdir, exist_ok=True)
 
-    def run(self, argv, stdin=None, timeout=120):
+    @staticmethod
+    def _limits():
+        # the usual interactive descriptor limit, whatever the sandbox's own is
+        import resource
+        soft, hard = resource.getrlimit(resource.RLIMIT_NOFILE)
+        resource.setrlimit(resource.RLIMIT_NOFILE, (min(1024, hard), hard))
+
+    def run(self, argv, stdin=None, timeout=300):
         try:
-            r = subprocess.run(argv, input=stdin, capture_output=True, env=self.env, timeout=timeout)
+            r = subprocess.run(argv, input=stdin, capture_output=True, env=self.env, timeout=timeout, preexec_fn=self._limits)
             return r.returncode, r.stdout, r.stderr
         except subprocess.TimeoutExpired:
             return -9, b"", b"timeout"
@@ -99,7 +106,16 @@ class Runner:
                         toks.append(bad); bi -= 1
                     if gi:
                         toks.append(tok); gi -= 1
-            argv = [os.path.join(self.tools, "jwt-verify"), "-q", "-k", kf]
+            out = op.get("out", "q")
+            short = op["mode"] == "argv"
+            argv = [os.path.join(self.tools, "jwt-verify")]
+            if out == "q":
+                argv += ["-q"]
+            elif out in ("v", "vp"):
+                argv += ["-v"] if short else ["--verbose"]
+                if out == "vp":
+                    argv += ["-p", "cat >/dev/null"] if short else ["--print=cat >/dev/null"]
+            argv += ["-k", kf]
             if alg != "~":
                 argv += ["--algorithm=" + alg]
             if op["mode"] == "argv":
